@@ -1,5 +1,37 @@
-From PV Require Import Lib.Base Model.Npc.
+(* C08 -- npc is monotone in the partial p-values and rank based; shapes are validated.
+   Statements only; proofs in Proofs/NpcProofs.v.  (Symmetry under relabelling the tests is asserted on the
+   implementation and the model by the correspondence run; it is not proved here: C08_partial.) *)
+From PV Require Import Lib.Base Model.Npc Proofs.NpcProofs.
 Open Scope Q_scope.
+
+(* the global p-value never decreases when the observed combined statistic decreases, which is what raising
+   any observed partial p-value does for a combiner that is non-increasing in each argument *)
+Theorem C08_npc_monotone : forall c p p' d plus1 v v',
+  length p = length p' -> is_callable c = false ->
+  stat_ge c (psi c p) (psi c p') = true ->
+  npc p d c plus1 = Ok v -> npc p' d c plus1 = Ok v' -> v <= v'.
+Proof. exact npc_monotone. Qed.
+Print Assumptions C08_npc_monotone.
+
+(* Fisher (ordered through the product) and Tippett are non-increasing in every argument *)
+Theorem C08_fisher_tippett_nonincreasing : forall p p',
+  (Forall2 (fun a b => 0 <= a /\ a <= b) p p' -> stat_ge Fisher (psi Fisher p) (psi Fisher p') = true) /\
+  (Forall2 Qle p p' -> stat_ge Tippett (psi Tippett p) (psi Tippett p') = true).
+Proof.
+  intros p p'. split; intros H; cbn [stat_ge]; apply Qle_bool_iff.
+  - exact (proj2 (qprod_mono p p' H)).
+  - exact (tippett_antitone p p' H).
+Qed.
+Print Assumptions C08_fisher_tippett_nonincreasing.
+
+(* only within-column ranks matter: a strictly increasing transformation of a column changes no count *)
+Theorem C08_rank_invariance : forall (f : Q -> Q) (col : list Q) (x : Q),
+  (forall a b, Qle_bool a b = Qle_bool (f a) (f b)) ->
+  count_lt (map f col) (f x) = count_lt col x /\ count_ge (map f col) (f x) = count_ge col x.
+Proof. intros f col x H. split; [exact (count_lt_increasing f col x H)|exact (count_ge_increasing f col x H)]. Qed.
+Print Assumptions C08_rank_invariance.
+
+(* shapes that disagree, or fewer than two p-values, are rejected with ValueError *)
 Theorem C08_npc_rejects_bad_shapes : forall p distr c plus1,
   ((length p < 2)%nat \/ (exists r, In r distr /\ length r <> length p)) -> npc p distr c plus1 = Err ValueError.
 Proof.
@@ -11,3 +43,9 @@ Proof.
     rewrite E. reflexivity.
 Qed.
 Print Assumptions C08_npc_rejects_bad_shapes.
+
+(* a combining function that increases with a p-value fails the monotonicity guard *)
+Example C08_increasing_combiner_rejected :
+  npc [1 # 2; 1 # 4] [[1; 2]; [0; 1]] PosSum true = Err ValueError /\
+  check_combfunc_monotonic (NegWSum [1; 1]) [1 # 2; 1 # 4] = true.
+Proof. vm_compute. split; reflexivity. Qed.
